@@ -84,7 +84,7 @@ impl Engine for XferEngine {
             0 => 0,
             1 => c.range(1, 100) as i32,
             2 => c.range(100_000, 50_000_000) as i32,
-            3 => (1 << 30) - c.range(0, 5000) as i32 - 70_000,
+            3 => i32::MAX - c.range(0, 40_000) as i32,
             _ => c.range(1, 5000) as i32,
         };
         let n_ticks = match c.below(6) {
@@ -165,11 +165,13 @@ impl Engine for XferEngine {
                 XferOp::NewTick { inc, base, len, salt } => {
                     ctx.t(1);
                     tick += inc.max(1) as i64;
-                    if tick > (1 << 30) {
+                    if tick > i32::MAX as i64 {
                         continue;
                     }
                     let t = tick as i32;
                     let base = if base >= t { t - 1 } else { base.max(-100_000) };
+                    // the wire field is tick - base: keep it representable
+                    let base = (base as i64).max(tick - i32::MAX as i64) as i32;
                     let mut r = Prng::new(mix(case.cfg.seed, salt as u64, transfers.len() as u64));
                     let mut data = r.bytes(len.min(28800) as usize);
                     if data.len() >= 8 {
@@ -376,7 +378,7 @@ impl Engine for XferEngine {
         EngineInfo {
             rule: "one run = a stream of ticks (arbitrary tick / base-tick values, data length 0..32 parts, unique data per tick) split by the real delta_chunks, encoded and decoded by the real message codecs and fed to the real DeltaReceiver through a channel that loses, duplicates, reorders and interleaves parts of older and newer ticks. Every receiver answer is compared with a small reference model (which transfer may / must complete) and the original data. Non-trivial = a channel fault fired while parts were in flight AND at least one answer was checked; distinct = distinct trace hash.".into(),
             assumptions: vec![
-                "ticks strictly increase on the sending side and stay below 2^30; base tick < tick (the server's usage)".into(),
+                "ticks strictly increase on the sending side (up to i32::MAX); base tick < tick and tick - base representable (the server's usage)".into(),
                 "only consistent messages are fed (no corruption): the connection layer underneath is stubbed by the channel".into(),
             ],
             real: vec!["snapshot::snap::delta_chunks", "gamenet_snap::{Snap,SnapSingle,SnapEmpty}::{encode,decode}", "snapshot::receiver::DeltaReceiver", "packer"],
